@@ -102,6 +102,31 @@ def pipeline(rep, cov, tier, seed, rng, text, msgs, label, probe_key=None):
             for c in mine:
                 if "tokens" in c:
                     f.write(f"container {c['key']} {c['opcode']} {' '.join(c['tokens'])}\n")
+        # static, all values at once: the reader and the writer the generator has just emitted for every new message, translated into the
+        # closed syntax (tools/rust_codec.py), must be the normal form of the program's definition (progeq; Thm/C01c, C01d)
+        import readertie
+        try:
+            tie_pairs = readertie.compute(repo=S, only=lambda n_: n_.startswith(("SMSG_VERIF_", "CMSG_VERIF_")))
+        except Exception as ex:
+            tie_pairs = []
+            rep.violation("C07/codec-tie/translator", f"the codec translator fails on the emitted tree: {ex}", {"programs": prog_path}, no_input=True)
+        n_tie_same = 0
+        for p in tie_pairs:
+            if p["ctx"] != "vanilla":
+                continue
+            if p["status"] == "same":
+                n_tie_same += 1
+                continue
+            ptxt = text[text.find(p["name"]):]
+            ptxt = ptxt[:ptxt.find("versions")]
+            tie_key = f"C07/codec-tie/{p['side']}/{p['name']}"
+            if "current_size of the endless array is a static sum" in (p.get("detail") or ""):
+                tie_key = "C07/endless-array-after-if/current_size"
+            rep.violation(probe_key or tie_key, f"generated program {p['name']}: the emitted {p['side']} is not the {'decoder' if p['side'] == 'reader' else 'encoder'} of the definition ({p['status']}): {p.get('detail', '')[:300]}",
+                          {"program": p["name"], "programs": prog_path, "definition": ptxt[:1500], "side": p["side"], "status": p["status"], "difference": p.get("detail"), "emitted_file": p.get("rust_file"),
+                           "theorem": "writer_encodes_as_spec / readerE_decodes_as_spec via progeq"}, no_input=True)
+        cov["emitted_codecs_equal_to_normal_form"] = n_tie_same
+        cov["emitted_codecs_compared"] = sum(1 for p in tie_pairs if p["ctx"] == "vanilla")
         # build the emitted library + harness (reduced configuration: vanilla, blocking) against the scratch tree
         hdir = os.path.join(genrun.SCRATCH_ROOT, "harness_world")
         shutil.copytree(os.path.join(VERIF, "harness", "world"), hdir, ignore=shutil.ignore_patterns("target"))
